@@ -3,13 +3,13 @@ import re
 from hypothesis import strategies as st
 
 from vf import findings, hyp
-from vf.gens import corpus, grammar, mutate
+from vf.gens import corpus, grammar, mutate, c01_shapes
 from vf.oracles.struct import struct, diff, node_classes
 from vf.props.c02 import site_of
 
 PROPERTY = 'C01'
 RULE = ('cases = (dialect, text) accepted by parse_sql: corpus statements, random grammar derivations (stratified over '
-        'statement kinds), accepted token mutations, all production-pair sentences of the live grammars (bounded-exhaustive), option-list statements (USING / SET / PARAMETERS) with string values over the characters that need escaping; judged: print does not raise, printed text is accepted, re-parsed '
+        'statement kinds), accepted token mutations, all production-pair sentences of the live grammars (bounded-exhaustive), option-list statements (USING / SET / PARAMETERS) with string values over the characters that need escaping, bounded-exhaustive shaped statements (vf/gens/c01_shapes.py: every keyword as a back-quoted function name / namespace, SHOW word pairs in three spellings, halves of two-word keywords as adjacent names, every ordered subset of the CREATE MODEL clauses, one-part names with dots / back-quotes wherever a string becomes a name, quoted string values in every statement that prints a string, long number literals, lower-case short pair sentences); judged: print does not raise, printed text is accepted, re-parsed '
         'tree structurally identical (reflection over every field) and to_tree-identical, printing idempotent, same '
         'for copy(); non-trivial = accepted and (>= 4 AST nodes or a quoted identifier / string literal / user '
         'parentheses / MindsDB command); distinct by whitespace-normalised text per dialect')
@@ -124,9 +124,54 @@ def tree_tags(T, d):
         except Exception:
             return None
 
+    def one_keyword(text):
+        lt = lexes_as(text)
+        return lt is not None and len(lt) == 1 and lt[0] != 'ID'
+
     for n in walk(T):
         cn = type(n).__name__
         mod = type(n).__module__
+        # attributes that hold plain texts / option lists (they have printers of their own)
+        for attr, v in sorted(vars(n).items()):
+            if isinstance(v, str) and "'" in v and d != 'mindsdb' and (cn == 'Constant' or attr == 'like'):
+                out.add('string:quote-in-noescape-dialect')      # the mysql / sqlite lexers know no escape
+            elif isinstance(v, dict):
+                for key, val in v.items():
+                    if isinstance(key, str):
+                        if not all(key.split('.')):
+                            out.add('kwkey:dot-edge')            # a key that is not the dotted join of its parts
+                        if '`' in key:
+                            out.add('kwkey:backquote')           # no spelling of a name can hold a back-quote
+                    if isinstance(val, float) and val in (float('inf'), float('-inf')):
+                        out.add('const:float-nonfinite')
+        if cn == 'Constant' and isinstance(n.value, float) and (n.value != n.value or n.value in (float('inf'), float('-inf'))):
+            out.add('const:float-nonfinite')
+        if cn == 'CreateJob' and any(isinstance(x, str) and "'" in x for x in (n.start_str, n.end_str, n.repeat_str)):
+            out.add('job:quote-in-schedule')
+        if cn == 'CreateKnowledgeBase' and any(x is not None and type(x).__name__ != 'Identifier' for x in (n.model, n.storage)):
+            out.add('kb:non-name-parameter')
+        if cn == 'Show':
+            cat = n.category if isinstance(n.category, str) else ''
+            if cat.upper() == 'SLAVE HOSTS' or (cat == 'REPLICAS' and n.name is not None):
+                out.add('show:slave-hosts')
+            if isinstance(n.name, str) and cat and one_keyword(cat.split()[-1] + ' ' + n.name) and ' ' not in n.name:
+                out.add('names:join-into-keyword')
+        if cn == 'Describe' and isinstance(n.type, str) and '`' in n.type:
+            out.add('ident:backquote-in-part')
+        if cn == 'Describe' and isinstance(n.type, str) and type(n.value).__name__ == 'Identifier' and n.value.parts \
+                and isinstance(n.value.parts[0], str) and ' ' not in n.type and ' ' not in n.value.parts[0] \
+                and one_keyword(n.type + ' ' + n.value.parts[0]):
+            out.add('names:join-into-keyword')
+        if getattr(n, 'horizon', None) is not None and getattr(n, 'using', None) and hasattr(n, 'window') \
+                and not (n.order_by or n.group_by or n.window is not None):
+            out.add('predictor:horizon-first-clause')
+        if cn in ('Function',) and isinstance(getattr(n, 'op', None), str):
+            if n.op.strip() == '':
+                out.add('func:blank-name')
+            if one_keyword(n.op) or (isinstance(getattr(n, 'namespace', None), str) and one_keyword(n.namespace)):
+                out.add('func:keyword-name')
+        if cn == 'Identifier' and (not n.parts or any(p_ == '' for p_ in n.parts)):
+            out.add('ident:empty-parts')
         if n is not T and cn not in ('TableColumn', 'Latest', 'Variable') and (
                 mod.startswith('mindsdb_sql.parser.dialects.mindsdb.') or
                 mod.rsplit('.', 1)[-1] in ('show', 'drop', 'set', 'use', 'describe', 'explain', 'alter_table', 'delete',
@@ -365,7 +410,23 @@ def run_shard(col, k, nshards, tier, seed):
             c = {'dialect': d, 'sql': ' '.join(toks), 'origin': 'pairs'}
             for rec in judge(c, col):
                 col.fail(rec, c)
+    # lower-case spelling of the short production-pair sentences (keywords are matched as text in some node classes)
+    low = []
+    for d in corpus.DIALECTS:
+        for label, toks in grammar.get(d).pair_sentences():
+            if len(toks) <= 5:
+                low.append((d, ' '.join(c01_shapes.lowercase_outside_quotes(toks)), 'pairs-lowercase'))
+    shapes = c01_shapes.all_shapes(_LEX) + low
+    for d, sql, origin in shapes[k::nshards]:
+        c = {'dialect': d, 'sql': sql, 'origin': origin}
+        for rec in judge(c, col):
+            col.fail(rec, c)
     if k == 0:
+        col.exhaustive_parts.append(f'{len(shapes)} shaped statements: every keyword as a back-quoted function name / namespace, '
+                                    'SHOW word pairs in three spellings, halves of the two-word keywords as adjacent names, every '
+                                    'ordered subset of the CREATE MODEL clauses, one-part names with dots / back-quotes in every '
+                                    'place that turns a string into a name, string values with quotes in every statement that '
+                                    'prints a string, long number literals, lower-case spelling of the short pair sentences')
         col.exhaustive_parts.append(f'all {n} production-pair sentences of the three grammars (every production with every '
                                     'alternative of each of its nonterminals, minimal elsewhere)')
     hyp.explore(col, cases(), judge, N[tier], seed)
